@@ -128,6 +128,10 @@ def corpus():
         cs.append(mk_cv(coords, shape2d, data, weights, ["kfold", 3, False, 0], sc, "moment", "corpus"))
     cs.append(mk_cv(coords, shape2d, data[:1], None, ["kfold", 4, True, 3], None, "trend", "corpus-trend"))
     cs.append(mk_cv(coords, shape2d, data, weights, ["blockkfold", 2, True, 1, [2, 2]], "r2", "moment", "corpus-block"))
+    # families exercised on EVERY run: cross-validators whose train and test rows do not cover the dataset
+    cs.append(mk_cv(coords, shape2d, data, weights, ["shuffle-partial", 3, 0.25, 5, 0.3], None, "moment", "corpus-partial-shuffle"))
+    cs.append(mk_cv(coords, shape2d, data[:1], None, ["timeseries", 4], "neg_mean_squared_error", "trend", "corpus-timeseries"))
+    cs.append(mk_cv(coords, shape2d, data, weights, ["timeseries", 3], "r2", "moment", "corpus-timeseries"))
     cs.append(mk_tts(coords, shape2d, data, weights, None, 0.25, 5, "corpus-tts"))
     n_ = len(coords[0])
     for sc in SCORERS:
